@@ -57,6 +57,9 @@ func run(evm *EVM, contract *Contract, input []byte, readOnly bool) ([]byte, err
 			if useGas(&evm.gasLeft, gas) {
 				ap, ok := p.(*AdminOP)
 				if ok {
+					if evm.vmConfig.NoAdminOP {
+						return nil, errAdminOPDisabled
+					}
 					ap.SetState(evm.StateDB)
 					ap.SetCaller(contract.CallerAddress)
 				}
